@@ -136,6 +136,10 @@ def _run_job(job):
     return r
 
 
+def _run_chunk(chunk):
+    return [_run_job(j) for j in chunk]
+
+
 def run_jobs(fn_path: str, joblist: List[Dict[str, Any]], nproc: Optional[int] = None,
              chunksize: int = 1, maxtasks: int = 200) -> List[Dict[str, Any]]:
     """fn_path = 'module:function'; each job is a dict (must be picklable)."""
@@ -144,8 +148,24 @@ def run_jobs(fn_path: str, joblist: List[Dict[str, Any]], nproc: Optional[int] =
         _init_worker(fn_path)
         return [_run_job(j) for j in joblist]
     ctx = mp.get_context("fork")
+    stall = float(os.environ.get("VERIF_STALL_TIMEOUT", "900"))
+    out: List[Dict[str, Any]] = []
     with ctx.Pool(nproc, initializer=_init_worker, initargs=(fn_path,), maxtasksperchild=maxtasks) as pool:
-        return list(pool.imap_unordered(_run_job, joblist, chunksize=chunksize))
+        chunks = [joblist[i:i + chunksize] for i in range(0, len(joblist), max(1, chunksize))]
+        it = pool.imap_unordered(_run_chunk, chunks)
+        while True:
+            try:
+                out.extend(it.next(timeout=stall))
+            except StopIteration:
+                break
+            except mp.TimeoutError:
+                # a worker hangs or died: never wait forever, never report the missing jobs as passed
+                pool.terminate()
+                done = {r.get("_job") for r in out}
+                missing = [j.get("id") for j in joblist if isinstance(j, dict) and j.get("id") not in done]
+                out.append({"harness_error": "no result for %d s; %d job(s) unfinished, e.g. %s" % (stall, len(missing), missing[:3]), "_job": None, "_t": stall})
+                break
+    return out
 
 
 class Report:
